@@ -206,6 +206,13 @@ RunResult run_w17(const Plan& pl) {
         // what main() does, minus run(): load, initialise, construct the solver
         simulation_initializer si(xp, false);
         auto prm = si.get_simulation_parameters();
+        // "completes" means a tissue the solver can use: a face list that is not a closed surface (a point id replaced by another valid
+        // one, a triangle missing or doubled) is malformed input and has to be diagnosed, not handed over
+        for (auto& c : si.get_cell_lst()) {
+            if (!c) { res.fail("C17", "completed_with_missing_cell", "start-up completed but a cell of the input was not built: " + desc); break; }
+            TopoOpts o; o.t6_bookkeeping = false; o.t7_volume = false; std::string e = check_topology(*c, o);
+            if (!e.empty() && (e.compare(0, 2, "T1") == 0 || e.compare(0, 2, "T2") == 0 || e.compare(0, 2, "T3") == 0)) { res.fail("C17", "completed_with_corrupt_surface", "start-up completed and handed over a cell whose face list is not a closed surface (" + e + "): " + desc); break; }
+        }
         if (prm.output_folder_path_ == out) { solver s(prm, si.get_cell_lst(), 1, true, false); outcome = "completed"; }
         else outcome = "completed_initializer_only";     // (a mutated output path is never handed to the solver: it would remove_all() it)
     }
